@@ -198,8 +198,10 @@ pub fn report<const V: u32>(name: &str, epoch: u64) {
         )
         .int("usedPages", (memory_manager::used_bytes(m) >> 12) as i64)
         .int("copied", COPY_COUNT.load(Ordering::Relaxed) as i64);
+    // enumerate_objects is documented as unsupported while a (concurrent) collection is in progress:
+    // the pause that starts concurrent marking reports no enumeration.
     #[cfg(feature = "vo_bit")]
-    {
+    if !mmtk::verif::concurrent_work_in_progress(m) {
         // enumerate_objects: every object MMTk believes valid (ids read from memory, sorted)
         let mut ids: Vec<i64> = vec![];
         let mut bad = 0i64;
